@@ -9,7 +9,7 @@ def check(ctx):
         "to the dequeue end, and the new command is pushed to the ring only when nothing is parked (send, force_send); "
         "R3 the removal keyed by DropCollect.collect_id is guarded by Config.cancelable; R4 phase order "
         "Start<Drop<Commit; R5 the per-item fan-out loop has no exit other than exhaustion; R6 DropCollect goes "
-        "through force_send_command and force_send never drops a value.")
+        "through force_send_command and force_send never drops a value. R9 only a StartCollect grows active_collectors (a late span cannot bring a cancelled trace back); R10 Config setters keep the other fields (cancelable survives report_interval()).")
     ctx.not_decided = ("suppression of children across arbitrary cross-queue interleavings; that nothing is delivered "
                        "'ever' is a history property.")
     facts = ctx.facts("E")
